@@ -20,7 +20,7 @@ fn res(p: &pm::PoolInfo, d: &str) -> u128 {
 
 /// Judge one executed swap on one pool from its reserves before/after.
 /// `gross_out` = return + all fees as computed by the contract (the AMM output before fees).
-pub fn check_swap_edge(pre: &pm::PoolInfo, post: &pm::PoolInfo, offer: &str, amt: u128, ask: &str, gross_out: Option<u128>, rec: &mut Rec) {
+pub fn check_swap_edge(pre: &pm::PoolInfo, post: &pm::PoolInfo, offer: &str, amt: u128, ask: &str, gross_out: Option<u128>, rec: &mut Rec) -> Option<u128> {
     rec.count("c03_swap_edges_judged");
     match pre.pool_type {
         pm::PoolType::ConstantProduct => {
@@ -29,12 +29,13 @@ pub fn check_swap_edge(pre: &pm::PoolInfo, post: &pm::PoolInfo, offer: &str, amt
             if k1 < k0 {
                 rec.viol("C03_cp_k_decreased", format!("reserves {}/{} -> {}/{} (offer {amt} {offer})", res(pre, offer), res(pre, ask), res(post, offer), res(post, ask)));
             }
+            None
         }
         pm::PoolType::StableSwap { amp } => {
             let d0 = d_exact_k(pre).unwrap();
             let d1 = d_exact_k(post).unwrap();
             if d1 >= d0 {
-                return;
+                return None;
             }
             // exact D fell. Classify against the C19 tolerance of the quote (known-finding envelope, DESIGN §2)
             let n = pre.assets.len();
@@ -52,21 +53,42 @@ pub fn check_swap_edge(pre: &pm::PoolInfo, post: &pm::PoolInfo, offer: &str, amt
                 }
             }
             let y = exact_y_floor(&others, &d0, &ann, n as u32);
-            let exact_out = scale(res(pre, ask), dec(ask), maxd, K) - y;
+            let exact_out = scale(res(pre, ask), dec(ask), maxd, K) - &y;
             let key_state = format!("amp={amp} dec={:?} res={:?} offer={amt}{offer}->{ask}", pre.asset_decimals, pre.assets.iter().map(|c| c.amount.u128()).collect::<Vec<_>>());
             match gross_out {
                 Some(g) => {
                     let gk = scale(g, dec(ask), maxd, K);
-                    let tol = scale(2, dec(ask), maxd, K) + scale(2, dec(offer), maxd, K);
+                    // 2 ask units + the exact value of 2 offer units (C19's tolerance)
+                    let mut others_hi = others.clone();
+                    {
+                        let mut idx = 0;
+                        for (c, _) in pre.assets.iter().zip(&pre.asset_decimals) {
+                            if c.denom != ask {
+                                if c.denom == offer {
+                                    others_hi[idx] += scale(2, dec(offer), maxd, K);
+                                }
+                                idx += 1;
+                            }
+                        }
+                    }
+                    let y_hi = exact_y_floor(&others_hi, &d0, &ann, n as u32);
+                    let val2 = &y - &y_hi;
+                    let unit = BigInt::from(10u32).pow(K);
+                    let tol = scale(2, dec(ask), maxd, K) + if val2 < BigInt::from(0) { -val2 } else { val2 } + unit;
                     let diff = &gk - &exact_out;
                     let ad = if diff < BigInt::from(0) { -diff.clone() } else { diff.clone() };
                     if ad <= tol {
                         rec.viol_kf("C03_ss_D_decreased_quote_within_tolerance", "envelope".into(), format!("{key_state}: gross out {g}, exact D fell {} -> {} (1e-{K} units) while the quote is within the C19 tolerance of the exact output", d0, d1));
+                        Some(to_u128(&tol))
                     } else {
                         rec.viol_kf("C03_ss_D_decreased", format!("{key_state} gross={g}"), format!("{key_state}: gross out {g} differs from the exact output by {} (1e-{K} max-precision units, tolerance {tol}); exact D fell {d0} -> {d1}", diff));
+                        None
                     }
                 }
-                None => rec.viol_kf("C03_ss_D_decreased", format!("{key_state} gross=?"), format!("{key_state}: exact D fell {d0} -> {d1}")),
+                None => {
+                    rec.viol_kf("C03_ss_D_decreased", format!("{key_state} gross=?"), format!("{key_state}: exact D fell {d0} -> {d1}"));
+                    None
+                }
             }
         }
     }
@@ -136,6 +158,10 @@ pub enum ScOp {
 pub struct ScGhost {
     /// trader's net flow per asset index since the seed (received - paid)
     pub net: BTreeMap<usize, i128>,
+    /// number of edges on this path on which exact D fell while the quote was within its tolerance (known-finding envelope)
+    pub envelope_edges: u32,
+    /// some edge on this path reduced the invariant in a way NOT covered by the envelope
+    pub bad_edge: bool,
 }
 #[derive(Clone)]
 pub struct SwapChain {
@@ -206,20 +232,31 @@ impl Checker for SwapChain {
                 }
                 rec.validated += 1;
                 let p1 = observe_pool(w, "o.g").unwrap();
-                check_swap_edge(&p0.pool_info, &p1.pool_info, &di, *amt, &dj, gross_of(&out), rec);
+                let viols_before = rec.viols.len();
+                let env = check_swap_edge(&p0.pool_info, &p1.pool_info, &di, *amt, &dj, gross_of(&out), rec);
+                let reduced_outside_envelope = rec.viols.len() > viols_before && env.is_none();
                 let got = w.balance(&trader, &dj) - b0;
                 if got > p0.pool_info.assets[*j].amount.u128() {
                     rec.viol("C03_output_exceeds_reserve", format!("got {got} of {dj}, reserve {}", p0.pool_info.assets[*j].amount));
                 }
                 let mut g2 = g.clone();
+                if env.is_some() {
+                    g2.envelope_edges += 1;
+                }
+                g2.bad_edge |= reduced_outside_envelope;
                 *g2.net.entry(*i).or_default() -= *amt as i128;
                 *g2.net.entry(*j).or_default() += got as i128;
                 g2.net.retain(|_, v| *v != 0);
                 if !g2.net.is_empty() && g2.net.values().all(|v| *v >= 0) {
-                    // strictly ahead in some asset and behind in none: a profitable swap sequence
-                    let zero_fee = p0.pool_info.pool_fees.swap_fee.share.is_zero() && p0.pool_info.pool_fees.protocol_fee.share.is_zero();
-                    let key = format!("pool amp={:?} dec={:?} zero_fee={zero_fee}", p0.pool_info.pool_type, p0.pool_info.asset_decimals);
-                    rec.viol_kf("C03_profitable_cycle", key, format!("trader net flows {:?} (asset index -> units) are all non-negative after this swap; pool {:?}", g2.net, p0.pool_info.assets));
+                    // strictly ahead in some asset and behind in none: a profitable swap sequence.
+                    // Attributed to the trader-favouring rounding (known finding) only if the path contains edges on which
+                    // exact D fell with the quote within its tolerance, and no other invariant-reducing edge (DESIGN §3/C03).
+                    let detail = format!("trader net flows {:?} (asset index -> units) are all non-negative after this swap; pool {:?} type {:?}; {} rounding edges on the path", g2.net, p0.pool_info.assets, p0.pool_info.pool_type, g2.envelope_edges);
+                    if g2.envelope_edges > 0 && !g2.bad_edge {
+                        rec.viol_kf("C03_profitable_cycle_through_rounding_edges", "envelope".into(), detail);
+                    } else {
+                        rec.viol("C03_profitable_cycle", detail);
+                    }
                 }
                 Some(g2)
             }
@@ -274,5 +311,5 @@ pub fn jobs(tier: Tier) -> Vec<Job> {
     let full = PuChecker { name: "c03-pu-full".into(), seeds: vec!["S1", "S2", "S3", "S4"], alpha: Alpha::Full, oracles: vec![oracle] };
     let core = PuChecker { name: "c03-pu-swapfocus".into(), seeds: vec!["S3", "S4"], alpha: Alpha::SwapFocus, oracles: vec![oracle] };
     let chain = SwapChain { name: "c03-swap-chains".into(), pools: chain_pools(tier) };
-    vec![explore_job(full, tier.pick(2, 3), Caps::default()), explore_job(core, tier.pick(3, 4), Caps::default()), explore_job(chain, tier.pick(3, 5), Caps::default())]
+    vec![explore_job(full, tier.pick(2, 3), Caps::default()), explore_job(core, tier.pick(3, 4), Caps::default()), explore_job(chain, tier.pick(3, 4), Caps::default())]
 }
